@@ -383,9 +383,9 @@ func init() {
 
 func illegalize(t *rapid.T, r spec.Req) spec.Req {
 	regs := func(q int) ([]byte, uint8) {
-		n := (2 * q) % 256
-		if n > 240 {
-			n = 240
+		n := (2 * q) % 256 // byte count = low byte of 2*quantity, backed by that many bytes
+		if n > 246 {
+			n = 246
 		}
 		return harness.Bytes(uint64(q), n), uint8(n)
 	}
@@ -400,12 +400,18 @@ func illegalize(t *rapid.T, r spec.Req) spec.Req {
 		r.Qty = rapid.SampledFrom([]uint16{0, 1969, 2000, 65535}).Draw(t, "bad_qty")
 	case 16:
 		r.Qty = rapid.SampledFrom([]uint16{0, 124, 125, 65535}).Draw(t, "bad_qty")
+		if rapid.Bool().Draw(t, "bad_qty_any") {
+			r.Qty = uint16(rapid.IntRange(124, 65535).Draw(t, "bad_qty_r"))
+		}
 		r.Payload, r.ByteCount = regs(int(r.Qty))
 	case 23:
 		if rapid.Bool().Draw(t, "bad_read") {
 			r.Qty = rapid.SampledFrom([]uint16{0, 126, 65535}).Draw(t, "bad_qty")
 		} else {
 			r.WQty = rapid.SampledFrom([]uint16{0, 122, 125, 65535}).Draw(t, "bad_wqty")
+			if rapid.Bool().Draw(t, "bad_wqty_any") {
+				r.WQty = uint16(rapid.IntRange(122, 65535).Draw(t, "bad_wqty_r"))
+			}
 			r.Payload, r.ByteCount = regs(int(r.WQty))
 		}
 	}
@@ -433,6 +439,9 @@ func genReq(t *rapid.T, level string) reqCase {
 	case "out-of-range":
 		fc := rapid.SampledFrom([]uint8{1, 2, 3, 4, 5, 15, 16, 23}).Draw(t, "fc")
 		c.Frame = spec.EncodeRequest(spec.TCP, illegalize(t, gen.LegalReq(t, fc, false)))
+		if rapid.Bool().Draw(t, "blind_handler") {
+			c.Handler = "accept-all" // the handler would answer anything: the refusal must come from the library
+		}
 	case "truncated":
 		f := spec.EncodeRequest(spec.TCP, gen.LegalReq(t, rapid.SampledFrom([]uint8{1, 2, 3, 4, 5, 6, 15, 16, 23}).Draw(t, "fc"), false))
 		k := rapid.IntRange(8, len(f)-1).Draw(t, "k")
